@@ -41,11 +41,46 @@ func VerifHandlerCorners() {
 	ops := vCornerOps()
 	c := ops[verifChoice("op", len(ops))]
 	verifLog("op: " + c.q)
-	code, out := f.vPost(c.q, c.vars, "")
-	verifAssert(code == 200, "a decodable request is answered with status 200")
-	_, hasData := out["data"]
-	_, hasErrs := out["errors"]
-	verifAssert(hasData || hasErrs, "the answer carries data and/or errors")
+	// alone, or as the first / second element of a batch next to an ordinary operation
+	pos := verifChoice("pos", 3)
+	one := map[string]interface{}{"query": c.q}
+	if c.vars != nil {
+		one["variables"] = c.vars
+	}
+	other := map[string]interface{}{"query": `{ today }`}
+	var payload interface{} = one
+	switch pos {
+	case 1:
+		payload = []interface{}{one, other}
+	case 2:
+		payload = []interface{}{other, one}
+	}
+	pb, _ := json.Marshal(payload)
+	rec0 := vPostRaw(f.gw, "application/json", pb)
+	verifAssert(rec0.code == 200, "a decodable request is answered with status 200")
+	var elems []interface{}
+	if pos == 0 {
+		var out map[string]interface{}
+		verifAssert(json.Unmarshal(rec0.body, &out) == nil, "the answer is one JSON object")
+		elems = []interface{}{out}
+	} else {
+		verifAssert(json.Unmarshal(rec0.body, &elems) == nil && len(elems) == 2, "a batch of two is answered with an array of two")
+		verifReach("corner operation inside a batch")
+	}
+	for i, e := range elems {
+		out, _ := e.(map[string]interface{})
+		verifAssert(out != nil, "every element of the answer is an object")
+		if out == nil {
+			continue
+		}
+		_, hasData := out["data"]
+		_, hasErrs := out["errors"]
+		verifAssert(hasData || hasErrs, "the answer carries data and/or errors")
+		if pos != 0 && i == 2-pos {
+			d, _ := out["data"].(map[string]interface{})
+			verifAssert(d != nil && d["today"] != nil && out["errors"] == nil, "the ordinary operation of the batch is answered at its own position")
+		}
+	}
 	// the process keeps serving
 	b, _ := json.Marshal(map[string]interface{}{"query": `{ today }`})
 	rec := vPostRaw(f.gw, "application/json", b)
